@@ -2,10 +2,33 @@
 import json
 
 
+# the crate's public data types as the property statements and the rules name them; when one of them is moved to
+# another module (and re-exported), every path in the facts is mapped back to the name used here
+CANONICAL_TYPES = ["expr::Expr", "expr::index::Index", "value::Value", "ruleset::RuleSet", "ruleset::rule::Rule", "ruleset::Outcome",
+                   "ruleset::builder::Builder", "symbol::Symbols", "function::UserFunctions", "error::Error",
+                   "expr::eval::context::EvalContext", "parse::rule::RuleBuilder", "value::ser::ValueSerializer"]
+
+
 class Facts:
     def __init__(self, path):
         with open(path) as fh:
-            self.raw = json.load(fh)
+            text = fh.read()
+        self.raw = json.loads(text)
+        have = set(a["path"] for a in self.raw["adts"])
+        moved = {}
+        for canon in CANONICAL_TYPES:
+            if canon in have:
+                continue
+            last = canon.split("::")[-1]
+            c = [a["path"] for a in self.raw["adts"] if a.get("local") and a["path"].split("::")[-1] == last]
+            if len(c) == 1:
+                moved[c[0]] = canon
+        if moved:
+            import re as _re
+            for real, canon in moved.items():
+                text = _re.sub(r"(?<![A-Za-z0-9_:])" + _re.escape(real) + r"(?![A-Za-z0-9_])", canon, text)
+            self.raw = json.loads(text)
+        self.moved_types = moved
         self.types = self.raw["types"]
         self.bodies = {}
         for b in self.raw["bodies"]:
@@ -34,6 +57,20 @@ class Facts:
                 i = t["args"][0]
             else:
                 return i
+
+    def impl_method(self, trait, self_s, name):
+        """path of the body of `impl trait for self_s { fn name }` wherever the impl block lives"""
+        c = [d for d, b in self.bodies.items() if b.get("name") == name and not b.get("parent")
+             and (b.get("impl") or {}).get("trait") == trait and (b.get("impl") or {}).get("self_s") == self_s]
+        return c[0] if len(c) == 1 else None
+
+    def adt_by_name(self, path):
+        """an ADT by its path, or — when it was moved to another module — by its unique last segment"""
+        if path in self.adts:
+            return path
+        last = path.split("::")[-1]
+        c = [p for p, a in self.adts.items() if a.get("local") and p.split("::")[-1] == last]
+        return c[0] if len(c) == 1 else None
 
     def adt_of(self, i):
         t = self.types[i]
